@@ -97,6 +97,11 @@ structure Input where
   ops : List Op
   queries : List Desc        -- subject descriptors listed after every operation
   probes : List Desc         -- descriptors handed to FetchSignatureBlob at the end (`dig` = manifest label)
+  race : List Op             -- concurrency stage: `PushSignature` calls issued concurrently as the very first
+                             -- notation pushes into a fresh layout (no `{}` config blob yet), own label space
+  raceSubject : Desc         -- the subject listed after all of them returned
+  cuts : List Nat            -- context stage: at the end every query is listed once per entry `k` with a context
+                             -- that is done before the call (k = 0) or cancelled after the k-th manifest fetch
   reopenOk : Bool            -- oras could re-open the layout from disk at the end (measured; oras' loader
                              -- gives up on a manifest whose subject states a wrong size for existing content)
   deriving Repr, FromJson, ToJson
@@ -126,11 +131,20 @@ structure StepObs where
   lists : List ListObs       -- one per query
   deriving DecidableEq, Repr, FromJson, ToJson
 
+/-- a listing under a context that is (or becomes) done -/
+structure CtxObs where
+  err : Bool                 -- an error was returned
+  ids : List Nat             -- the labels handed to the callback, in order of arrival ([] on error)
+  deriving DecidableEq, Repr, FromJson, ToJson
+
 structure Obs where
   steps : List StepObs
   probes : List FetchObs
   reopened : List ListObs    -- one per query, from a store re-opened from disk after the last step
   reopenSame : Bool          -- `NewOCIRepository(path)` lists and fetches the same as that store
+  raceOks : List Bool        -- per concurrent push: no error
+  raceList : ListObs         -- listing (and fetches) of `raceSubject` after all concurrent pushes returned
+  cancelled : List CtxObs    -- per query, per cut
   retained : Bool            -- history of results: every result returned so far (envelope bytes, blob
                              -- descriptors, the descriptor slices handed to the listing callback and their
                              -- annotation maps) still has, after all later calls on this and on other
@@ -251,9 +265,26 @@ def runSteps (mode : Index) (qs : List Desc) : State → List Op → List StepOb
     let t := runSteps mode qs r.1 rest
     (so :: t.1, t.2)
 
+/-- `ListSignatures` under a done context: `oci.Store` ignores the context and `signatureReferrers`
+never looks at it, so the listing is what it is with a live context -/
+def ctxObs (mode : Index) (st : State) (q : Desc) : CtxObs :=
+  let lo := listObs mode st q
+  { err := !lo.ok, ids := lo.sigs.map (·.id) }
+
+/-- the (query, cut) pairs of the context stage, in order -/
+def ctxQueries (i : Input) : List Desc := i.queries.flatMap (fun q => i.cuts.map (fun _ => q))
+
+/-- Concurrent pushes of distinct envelopes: the store serialises what has to be serial (an
+"already exists" on the shared empty config is tolerated), so the outcome is that of the pushes
+in any order - the model takes the order in which they are written down (for distinct envelopes
+the outcome does not depend on it: `distinct_pushes_*` in Props). -/
 def run (i : Input) : Obs :=
   let r := runSteps i.mode i.queries {} i.ops
+  let rr := runSteps .exact [] {} i.race
   { steps := r.1,
+    raceOks := rr.1.map (·.ok),
+    raceList := listObs .exact rr.2 i.raceSubject,
+    cancelled := (ctxQueries i).map (ctxObs i.mode r.2),
     probes := i.probes.map (fetchSig r.2),
     reopened := if i.reopenOk then i.queries.map (listObs .exact r.2) else [],
     reopenSame := true,
@@ -351,7 +382,13 @@ def stepViews (mode : Index) (qs : List Desc) : List Op → List Op → List Ste
 
 def views (i : Input) (o : Obs) : List View :=
   stepViews i.mode i.queries [] i.ops o.steps ++
-    List.zipWith (fun q lo => View.mk .exact i.ops.reverse q lo) i.queries o.reopened
+    List.zipWith (fun q lo => View.mk .exact i.ops.reverse q lo) i.queries o.reopened ++
+    [View.mk .exact i.race.reverse i.raceSubject o.raceList]
+
+/-- "no error" of every operation of a list executed one after the other, after history `h` -/
+def expectOks : List Op → List Op → List Bool
+  | _, [] => []
+  | h, o :: rest => succeeds h o :: expectOks (o :: h) rest
 
 /-- every step observation paired with (older history, operation) -/
 def stepPairs : List Op → List Op → List StepObs → List (List Op × Op × StepObs)
@@ -360,7 +397,8 @@ def stepPairs : List Op → List Op → List StepObs → List (List Op × Op × 
 
 def shapeOk (i : Input) (o : Obs) : Bool :=
   o.steps.length == i.ops.length && o.steps.all (fun so => so.lists.length == i.queries.length) &&
-  o.probes.length == i.probes.length && o.reopened.length == (if i.reopenOk then i.queries.length else 0)
+  o.probes.length == i.probes.length && o.reopened.length == (if i.reopenOk then i.queries.length else 0) &&
+  o.cancelled.length == (ctxQueries i).length
 
 /-- listed signatures of a view paired with the operations that are expected to be listed -/
 def paired (v : View) : List (Op × SigObs) := (sigsFor v.q v.hist).zip v.lo.sigs
@@ -375,8 +413,9 @@ def probeTarget (h : List Op) (d : Desc) : Option Op :=
     else probeTarget h' d
 
 /-- well-formedness of an input: the manifest labels are pairwise distinct (they stand for sha256
-digests of distinct contents). The generator numbers the operations 0, 1, 2, ... -/
-def wf (i : Input) : Bool := decide ((i.ops.map (·.id)).Nodup)
+digests of distinct contents), in the sequence and in the concurrency stage (each has its own
+layout). The generator numbers the operations 0, 1, 2, ... -/
+def wf (i : Input) : Bool := decide ((i.ops.map (·.id)).Nodup) && decide ((i.race.map (·.id)).Nodup)
 
 def hostileLayers (ls : List Layer) : Bool := ls.length != 1 || ls.any (fun l => decide (l.size > capB))
 
@@ -429,6 +468,12 @@ def clauses (i : Input) (o : Obs) : Clauses :=
         | some op => f == expectFetch H op
         | none => true)),
     ("reopen_same", o.reopenSame),
+    -- concurrent first pushes: every push of a new envelope is accepted (and, through the race view of
+    -- `list_exact` / `fetch_roundtrip` above, listed and fetchable)
+    ("concurrent_pushes_accepted", o.raceOks == expectOks [] i.race),
+    -- a listing under a done context is complete or an error, never silently truncated
+    ("cancelled_listing_complete_or_error",
+      ((ctxQueries i).zip o.cancelled).all (fun (q, c) => c.err || c.ids == (sigsFor q H).map (·.id))),
     -- "identical envelope bytes" is a lasting fact: a result stays what it was when it was returned
     ("earlier_results_unchanged", o.retained),
     ("results_not_aliased", o.unaliased) ]
